@@ -22,6 +22,7 @@ mod l3;
 mod l4;
 mod l5;
 mod l6;
+mod l7;
 mod oracle;
 mod seeds;
 mod tok;
@@ -41,6 +42,7 @@ enum Layer {
     L2,
     L3,
     L6,
+    L7,
 }
 
 impl Layer {
@@ -54,6 +56,7 @@ impl Layer {
             Layer::L2 => "L2-untyped-expressions",
             Layer::L3 => "L3-seed-deviations",
             Layer::L6 => "L6-scaling",
+            Layer::L7 => "L7-self-reference-through-type-constructors",
         }
     }
     fn chunk(self) -> u64 {
@@ -65,12 +68,13 @@ impl Layer {
             Layer::L2 => 1000,
             Layer::L3 => 2000,
             Layer::L6 => 14,
+            Layer::L7 => 200,
         }
     }
 }
 
-const ORDER: [Layer; 8] =
-    [Layer::L6, Layer::L1, Layer::L4, Layer::L5Mem, Layer::L5Disk, Layer::L2t, Layer::L2, Layer::L3];
+const ORDER: [Layer; 9] =
+    [Layer::L6, Layer::L7, Layer::L1, Layer::L4, Layer::L5Mem, Layer::L5Disk, Layer::L2t, Layer::L2, Layer::L3];
 
 struct Plan {
     l3: l3::Table,
@@ -92,6 +96,7 @@ fn plan(cfg: &Cfg) -> Plan {
             Layer::L2 => l2::count(cfg),
             Layer::L3 => l3.count(),
             Layer::L6 => l6::count(cfg),
+            Layer::L7 => l7::count(cfg),
         };
         counts.push((l, n));
         let mut lo = 0;
@@ -116,6 +121,7 @@ fn build(cfg: &Cfg, p: &Plan, layer: Layer, idx: u64) -> (Option<Input>, Value) 
         Layer::L2 => some(l2::case(cfg, idx)),
         Layer::L3 => p.l3.case(idx),
         Layer::L6 => some(l6::case(cfg, idx)),
+        Layer::L7 => some(l7::case(cfg, idx)),
     }
 }
 
@@ -266,6 +272,11 @@ impl Check for C06 {
                     probes += 1;
                     fork_probe(&mut runner, &input, l6::WALL_BACKSTOP_S, Some((Some(l6::AS_CAP), l6::cpu_cap_s(&cfg))))
                 }
+                // L7: every input may bind a type variable to a type containing it
+                Input::Single(_) if layer == Layer::L7 => {
+                    probes += 1;
+                    fork_probe(&mut runner, &input, l6::WALL_BACKSTOP_S, Some((None, probe_cpu_s)))
+                }
                 Input::Single(s) if known::may_die(s) => {
                     probes += 1;
                     fork_probe(&mut runner, &input, l6::WALL_BACKSTOP_S, Some((None, probe_cpu_s)))
@@ -389,6 +400,7 @@ impl Check for C06 {
                         "max_len": l4::max_len(cfg), "position_kinds": l4::POSITIONS.len()},
                 "L5": l5::bounds(cfg),
                 "L6": l6::bounds(cfg),
+                "L7": l7::bounds(cfg),
             }),
             states_are: "distinct inputs (source texts / module trees); distinct inside each unit, enumeration indices are distinct across units".into(),
             transitions_are: "runs of FileTree::compile (+ RotoReport::write twice and the location check on Err)".into(),
@@ -472,6 +484,10 @@ fn selftest(cfg: &Cfg) -> Result<(), String> {
         (f("fn f() -> i32 { Option.None.x }", "path3"), "path3"),
         (known::may_die("fn f() { let w = []; w.push(w); }"), "may_die push"),
         (known::may_die("record A { x: A? }"), "may_die record"),
+        (known::may_die("fn main() { let a = []; a = [{ x: a }]; }"), "may_die through record"),
+        (known::may_die("fn f() { let a = []; let b = []; a.push({ f: b }); b.push({ f: a }); }"), "may_die two variables"),
+        (known::may_die("fn f(o: i32?) { let w = []; let z = if true { w } else { { f: w } }; }"), "may_die if arms"),
+        (!known::may_die("fn f() -> u64 { let x = [1]; x.push(2); x.len() }"), "may_die resolved list"),
         (f("record A { x: { f: A }? }", "type_cycle_via_argument"), "{ f: A }?"),
         (f("record A[T] { x: A[i32]? }", "type_cycle_via_argument"), "A[i32]?"),
         (known::may_die("const C: i32 = 1 / 0;"), "may_die const"),
